@@ -1,6 +1,7 @@
 /- Driver handlers for the C06 correspondence streams. -/
 import Csvq.Model.Proto
 import Csvq.Model.Text
+import Csvq.Model.Cast
 namespace Csvq.Drive
 open Csvq Csvq.Proto
 
@@ -66,6 +67,16 @@ def c06 (cmd : String) (args : List String) : String :=
         | some t => t.toStr
         | none => "E"
     | _, _ => bad
+  | "cast", [fn, a] =>
+    match parseProfile a with
+    | some a =>
+      match fn with
+      | "integer" => showVal (castInteger a)
+      | "float" => showVal (castFloat a)
+      | "boolean" => showVal (castBoolean a)
+      | "ternary" => showVal (castTernary a)
+      | _ => bad
+    | none => bad
   | "sint", [h] =>
     match parseHexX h with
     | some b => showOpt toString (strToIntStrict b) ++ " " ++ (strTernary b).toStr
